@@ -1,0 +1,38 @@
+//go:build verif
+
+package kafka
+
+// Hook for the group-balancer check (C14): the group leader's glue
+// ConsumerGroup.assignTopicPartitions, driven through the coordinator seam.
+
+// verifLeaderCoord is a coordinator of which only readPartitions is ever used by
+// assignTopicPartitions; every other method of the embedded nil interface would
+// panic if called.
+type verifLeaderCoord struct {
+	coordinator
+	read func(topics ...string) ([]Partition, error)
+}
+
+func (v verifLeaderCoord) readPartitions(topics ...string) ([]Partition, error) {
+	return v.read(topics...)
+}
+
+// VerifAssignTopicPartitions runs the real ConsumerGroup.assignTopicPartitions as the
+// leader of a group whose JoinGroup response selected `protocol` and lists `members`
+// (their metadata is encoded the way JoinGroup carries it, so the real decoding in
+// makeMemberProtocolMetadata runs too).  `read` plays the broker: it is handed exactly
+// the topics the leader asks metadata for.
+func VerifAssignTopicPartitions(balancers []GroupBalancer, protocol string, members []GroupMember,
+	read func(topics ...string) ([]Partition, error)) (GroupMemberAssignments, error) {
+	cg := &ConsumerGroup{config: ConsumerGroupConfig{ID: "verif-c14", GroupBalancers: balancers}}
+	resp := joinGroupResponse{GenerationID: 1, GroupProtocol: protocol}
+	for i, m := range members {
+		if i == 0 {
+			resp.LeaderID = m.ID
+			resp.MemberID = m.ID
+		}
+		meta := groupMetadata{Version: 1, Topics: m.Topics, UserData: m.UserData}.bytes()
+		resp.Members = append(resp.Members, joinGroupResponseMember{MemberID: m.ID, MemberMetadata: meta})
+	}
+	return cg.assignTopicPartitions(verifLeaderCoord{read: read}, resp)
+}
